@@ -145,6 +145,16 @@ Fixpoint tabix_walk (seen : list Z) (cur : option (Z * Z)) (ls : list line) : bo
 
 Definition tabix_okb (f : list line) : bool := tabix_walk [] None f.
 
+(* a .tbi index (min_shift 14, 5 levels) covers 2^29 positions: hts_idx_check_range
+   refuses a record whose end lies beyond ("cannot be stored in a tbi index") *)
+Definition TBI_MAX : Z := 536870912.
+
+Definition range_okb (f : list line) : bool :=
+  forallb (fun l => match tbx l with Some (_, _, e) => e <=? TBI_MAX | None => true end) f.
+
+(* tabix_index succeeds: the order is accepted and every record fits the index *)
+Definition tabix_accepts (f : list line) : bool := tabix_okb f && range_okb f.
+
 (* 1-based closed query [a,b] against a 1-based closed record [s,e] *)
 Definition overlaps (a b : option Z) (s e : Z) : bool :=
   match b with Some b => s <=? b | None => true end
@@ -273,5 +283,254 @@ Definition index_output (sort : bool) (f : list line) : res (list line) :=
   if sort then
     bind (read_plain f None) (fun d =>
       let out := to_str (sort_data d) in
-      if tabix_okb out then Ok out else Err E_OS)
-  else if tabix_okb f then Ok f else Err E_OS.
+      if tabix_accepts out then Ok out else Err E_OS)
+  else if tabix_accepts f then Ok f else Err E_OS.
+
+(* ---- region strings ------------------------------------------------------
+   Strings are lists of code points here.  Two parsers read the same string:
+   _iter_haps (Python: positions for the containment filter) and htslib
+   (hts_parse_region behind TabixFile.fetch(region=...): which lines come back).
+   [names] maps the code points of a string to its rank. *)
+
+Definition COLON : Z := 58.
+Definition DASH : Z := 45.
+Definition PLUS : Z := 43.
+
+(* str.split(sep, maxsplit=1) / str.rsplit(sep, maxsplit=1); None: no separator *)
+Fixpoint split_first (sep : Z) (s : list Z) : option (list Z * list Z) :=
+  match s with
+  | [] => None
+  | c :: r => if c =? sep then Some ([], r)
+              else match split_first sep r with
+                   | Some (a, b) => Some (c :: a, b)
+                   | None => None
+                   end
+  end.
+
+Fixpoint split_last (sep : Z) (s : list Z) : option (list Z * list Z) :=
+  match s with
+  | [] => None
+  | c :: r => match split_last sep r with
+              | Some (a, b) => Some (c :: a, b)
+              | None => if c =? sep then Some ([], r) else None
+              end
+  end.
+
+Definition is_digit (c : Z) : bool := (48 <=? c) && (c <=? 57).
+
+Definition digits_val (s : list Z) : option Z :=
+  match s with
+  | [] => None
+  | _ => if forallb is_digit s then Some (fold_left (fun a c => a * 10 + (c - 48)) s 0) else None
+  end.
+
+(* int(str) on [+-]?[0-9]+; anything else ValueError.  (int() also accepts
+   surrounding white space, '_' between digits and non-ASCII digits: the harness
+   marks a region string containing such characters as unobserved.) *)
+Definition py_int (s : list Z) : option Z :=
+  match s with
+  | [] => None
+  | c :: r => if c =? DASH then option_map Z.opp (digits_val r)
+              else if c =? PLUS then digits_val r
+              else digits_val s
+  end.
+
+(* region[1].split("-", 1); drop an empty second part; list(map(int, region)) *)
+Definition py_bounds (p : list Z) : res (option Z * option Z) :=
+  match split_first DASH p with
+  | None => match py_int p with Some a => Ok (Some a, None) | None => Err E_Value end
+  | Some (x, y) =>
+    match y with
+    | [] => match py_int x with Some a => Ok (Some a, None) | None => Err E_Value end
+    | _ => match py_int x, py_int y with
+           | Some a, Some b => Ok (Some a, Some b)
+           | _, _ => Err E_Value
+           end
+    end
+  end.
+
+Definition names := list (list Z * Z).
+
+Fixpoint lookup (nm : names) (s : list Z) : option Z :=
+  match nm with
+  | [] => None
+  | (t, k) :: r => if list_eqb Z.eqb t s then Some k else lookup r s
+  end.
+
+(* the string names a sequence of the index of [f] *)
+Definition seq_of (nm : names) (f : list line) (s : list Z) : option Z :=
+  match lookup nm s with
+  | Some k => if existsb (seq_is k) f then Some k else None
+  | None => None
+  end.
+
+Definition is_seq (nm : names) (f : list line) (s : list Z) : bool :=
+  match seq_of nm f s with Some _ => true | None => false end.
+
+(* [fixed = false]: the tree as it is: positions follow the FIRST colon.
+   [fixed = true]: fixes/C11_colon_contigs.patch: like htslib, the whole string is
+   a sequence name if there is one of that name and the text before the last
+   colon is not one; otherwise positions follow the LAST colon.
+   Result: the text that holds the positions, if any. *)
+Definition whole_name (nm : names) (f : list line) (s : list Z) : bool :=
+  is_seq nm f s && match split_last COLON s with
+                   | Some (pre, _) => negb (is_seq nm f pre)
+                   | None => true
+                   end.
+
+Definition pos_part (fixed : bool) (nm : names) (f : list line) (s : list Z) : option (list Z) :=
+  if fixed then
+    if whole_name nm f s then None
+    else match split_last COLON s with
+         | Some (_, (_ :: _) as p) => Some p
+         | _ => None
+         end
+  else match split_first COLON s with
+       | Some (_, (_ :: _) as p) => Some p
+       | _ => None
+       end.
+
+Definition py_region (fixed : bool) (nm : names) (f : list line) (s : list Z) : res (option Z * option Z) :=
+  match pos_part fixed nm f s with
+  | None => Ok (None, None)
+  | Some p => py_bounds p
+  end.
+
+(* htslib on the text after the colon, for "", "a", "a-", "a-b" with plain
+   digits; other spellings (',', exponents, signs, braces) are not modelled *)
+Definition hts_pos (p : list Z) : res (option Z * option Z) :=
+  match p with
+  | [] => Ok (None, None)
+  | _ =>
+    match split_first DASH p with
+    | None => match digits_val p with Some a => Ok (Some a, None) | None => Err E_Unobserved end
+    | Some (x, y) =>
+      match digits_val x with
+      | None => Err E_Unobserved
+      | Some a =>
+        match y with
+        | [] => Ok (Some a, None)
+        | _ => match digits_val y with
+               | Some b => if b =? 0 then Ok (Some a, None)      (* end 0: "interpret chr:100- as chr:100-<end>" *)
+                           else if b <? a then Err E_Value else Ok (Some a, Some b)
+               | None => Err E_Unobserved
+               end
+        end
+      end
+    end
+  end.
+
+(* hts_parse_region: the whole string is tried as a name first (refused as
+   ambiguous when the text before the last colon is a name, too); otherwise
+   name = text before the last colon.  The repaired code asks for "{pre}:pos"
+   in the ambiguous case, which htslib reads as written. *)
+Definition hts_region (fixed : bool) (nm : names) (f : list line) (s : list Z)
+  : res (Z * option Z * option Z) :=
+  match split_last COLON s with
+  | None => match seq_of nm f s with Some k => Ok (k, None, None) | None => Err E_Value end
+  | Some (pre, p) =>
+    match seq_of nm f s, seq_of nm f pre with
+    | Some k, None => Ok (k, None, None)
+    | Some _, Some k' => if fixed then bind (hts_pos p) (fun ab => Ok (k', fst ab, snd ab))
+                         else Err E_Value
+    | None, Some k' => bind (hts_pos p) (fun ab => Ok (k', fst ab, snd ab))
+    | None, None => Err E_Value
+    end
+  end.
+
+Fixpoint name_of (nm : names) (k : Z) : option (list Z) :=
+  match nm with
+  | [] => None
+  | (t, k') :: r => if k =? k' then Some t else name_of r k
+  end.
+
+(* _iter_haps / the ID loop with the variant lookup left open *)
+Section IndexedG.
+  Variable vof : hrec -> res (list item).
+
+  Definition emit_g (h : hrec) (rest : res (list item)) : res (list item) :=
+    bind (vof h) (fun vs => bind rest (fun tl => Ok (IH h :: vs ++ tl))).
+
+  Fixpoint iter_region_g (r : region) (ids : option (list Z)) (ls : list line) : res (list item) :=
+    match ls with
+    | [] => Ok []
+    | l :: rest =>
+      match l with
+      | LH c s e i _ | LR c s e i _ =>
+        let h := mkh (match l with LR _ _ _ _ _ => true | _ => false end) c s e i in
+        if negb (id_ok ids i) then iter_region_g r ids rest
+        else if negb (inside r h) then iter_region_g r ids rest
+        else emit_g h (iter_region_g r ids rest)
+      | LV _ _ _ _ _ _ => Err E_Attr
+      | LC _ | LX _ _ _ _ _ => Err E_Key
+      end
+    end.
+
+  Fixpoint iter_ids_g (ids : list Z) (count : Z) (ls : list line) : res (list item) :=
+    match ls with
+    | [] => Ok []
+    | l :: rest =>
+      match l with
+      | LH c s e i _ | LR c s e i _ =>
+        let h := mkh (match l with LR _ _ _ _ _ => true | _ => false end) c s e i in
+        if memZ i ids then
+          emit_g h (if count + 1 =? lenZ ids then Ok [] else iter_ids_g ids (count + 1) rest)
+        else if count =? lenZ ids then Ok [] else iter_ids_g ids count rest
+      | _ => if count =? lenZ ids then Ok [] else iter_ids_g ids count rest
+      end
+    end.
+End IndexedG.
+
+Section IndexedStr.
+  Variable fixed : bool.
+  Variable fetch : list line -> Z -> option Z -> option Z -> res (list line).
+  Variable f : list line.
+  Variable nm : names.
+
+  (* for line in haps_file.fetch(reference=hap.id): pysam hands the ID to
+     hts_parse_region as a region string, so an ID "<sequence name>:<text>" is
+     refused as ambiguous (ValueError -> "the haplotype has no variants") or read
+     as positions on that other sequence.  The repaired code asks for "{ID}". *)
+  Definition variants_of_s (h : hrec) : res (list item) :=
+    if h_rep h then Ok []
+    else
+      match name_of nm (h_id h) with
+      | None => Err E_Unobserved
+      | Some t =>
+        match (if fixed
+               then match seq_of nm f t with Some k => Ok (k, None, None) | None => Err E_Value end
+               else hts_region false nm f t) with
+        | Err k => if k =? E_Unobserved then Err k else Ok []
+        | Ok (k, a, b) =>
+          match fetch f k a b with
+          | Ok ls => Ok (flat_map (fun l => match l with
+                                            | LV _ s e i al _ => [IV (mkv (h_id h) s e i al)]
+                                            | _ => [] end) ls)
+          | Err _ => Ok []
+          end
+        end
+      end.
+
+  (* Haplotypes.read(region=s, haplotypes=ids) on an indexed file, s non-empty *)
+  Definition read_indexed_s (s : list Z) (ids : option (list Z)) : res (list (hrec * list vrec)) :=
+    match hts_region fixed nm f s with
+    | Err k => if k =? E_Unobserved then Err k
+               else collect (iter_plain f ids)         (* "not indexed": region ignored *)
+    | Ok (k, ha, hb) =>
+      match py_region fixed nm f s with
+      | Err e => Err e                                  (* int() raised ValueError *)
+      | Ok (pa, pb) =>
+        match fetch f k ha hb with
+        | Err e => Err e
+        | Ok ls => bind (iter_region_g variants_of_s (mkreg k pa pb) ids ls) collect
+        end
+      end
+    end.
+
+  (* Haplotypes.read(haplotypes=ids) on an indexed file *)
+  Definition read_ids_s (ids : option (list Z)) : res (list (hrec * list vrec)) :=
+    match ids with
+    | None | Some [] => collect (iter_plain f ids)
+    | Some l => bind (iter_ids_g variants_of_s l 0 (data_lines f)) collect
+    end.
+End IndexedStr.
